@@ -72,7 +72,8 @@ Actions(s) ==
      \cup (IF "SetComment" \in Ops THEN {[A0 EXCEPT !.op = "SetComment", !.p = p, !.name = cm] : p \in N, cm \in {"", "c--d"}} ELSE {})
 
 Red(s) == [n |-> s.n, f |-> s.f,
-           models |-> [m \in 1..Len(s.root) |-> [root |-> s.root[m], files |-> s.files[m], idx |-> s.idx[m], refo |-> s.refo[m]]]]
+           models |-> [m \in 1..Len(s.root) |-> [root |-> s.root[m], files |-> s.files[m], idx |-> s.idx[m], refo |-> s.refo[m],
+                                                  broken |-> SortInts(Broken(s, m))]]]
 
 Init == /\ st = FixState /\ hist = <<>>
         /\ PrintT(<<"FIX", ToJson(Fix)>>)
